@@ -14,8 +14,6 @@ carry no expectation; every data statement carries
                     manual leaves the value open: pad bytes, unused half words),
                     reserve: address units skipped without emitting anything
   expect = 'err'    the statement must be rejected with an error
-  expect = 'err|alt' it must be rejected, or lay down the `slots` (float
-                    overflow: "range overflow" and IEEE infinity are both fine)
 Where the manual is silent about a combination the generator does not produce
 it; each such restriction carries a comment starting with 'MANUAL-SILENT'.
 """
@@ -354,6 +352,30 @@ def pick_int_bad(rng, bits):
     return v, cls
 
 
+DBL_MAX = 1.7976931348623157e308
+FLT_MAX = 3.4028234663852886e38          # (2^24-1) * 2^104
+HALF_MAX = 65504.0                       # (2^11-1) * 2^5
+# values at the upper end of the finite range of each format: all are exactly representable in the format
+# and must be laid down exactly
+FLOAT_INSIDE = {
+    'half': [HALF_MAX, 65472.0, 65504.0, 32768.0],
+    'single': [FLT_MAX, 3.4028232635611926e38, 3.4e38, 3.3e38],
+    'double': [DBL_MAX, math.nextafter(DBL_MAX, 0.0), 1.7e308],
+    'ext': [DBL_MAX, 1.0e308],
+}
+# values that do not fit: from the IEEE overflow threshold (max finite + half an ulp, which round-to-nearest-even
+# turns into infinity) upwards.  "A value that does not fit the field is rejected with an error"; the manual
+# documents neither saturation nor infinity for any of these statements.
+# MANUAL-SILENT (not generated): magnitudes strictly between max finite and the overflow threshold (they round
+# to max finite, the assembler rejects them), and literals above the double range such as 1e309 (the manual
+# limits floating point values to "roughly 10^308"; what a larger literal denotes is not described - the
+# pinned tree reads it as infinity and stores infinity).
+FLOAT_OUTSIDE = {
+    'half': [65520.0, HALF_MAX * (1 + 2.0 ** -11), 2 * HALF_MAX, 1.0e5, 1.0e39, 1.0e300, DBL_MAX],
+    'single': [3.4028235677973366e38, FLT_MAX * (1 + 2.0 ** -24), 2 * FLT_MAX, 3.5e38, 1.0e39, 1.0e300, DBL_MAX],
+}
+
+
 def _rand_sig(rng, bits):
     """random odd significand with exactly `bits` bits"""
     return (1 << (bits - 1)) | rng.getrandbits(bits - 1) | 1
@@ -388,9 +410,8 @@ def pick_float(rng, fmt):
         if k == 3:
             return sign * 0.0, 'double-zero'
         if k == 4:
-            # MANUAL-SILENT: the manual gives no float limits and the assembler's limit constant (1.7e308) is
-            # below DBL_MAX; values above 1.7e308 are not generated.
-            return sign * 1.6e308, 'double-large'
+            # the largest finite doubles fit a 64-bit field exactly
+            return sign * rng.choice([DBL_MAX, math.nextafter(DBL_MAX, 0.0), 1.7e308, 1.6e308]), 'double-max'
         return sign * math.ldexp(_rand_sig(rng, 53), rng.randrange(-1022, 1020) - 52), 'double-normal'
     if k == 0:
         return sign * 0.0, fmt + '-zero'
@@ -399,7 +420,7 @@ def pick_float(rng, fmt):
         return sign * math.ldexp(_rand_sig(rng, rng.randrange(1, p + 1)), rng.randrange(emin, bias - p)), fmt + '-exact'
     if k == 2:
         # largest finite number
-        return sign * math.ldexp((1 << p) - 1, bias - fbits) if fmt == 'half' else sign * 3.3e38, fmt + '-max'
+        return sign * rng.choice(FLOAT_INSIDE[fmt]), fmt + '-max'
     if k in (3, 4):
         # exact tie between two neighbouring numbers of the format -> even
         e = rng.randrange(emin, bias - 1)
@@ -435,11 +456,12 @@ def pick_float(rng, fmt):
 
 
 def pick_float_overflow(rng, fmt):
-    """a double that is at least twice the largest finite number of the format (single, half only).
-    MANUAL-SILENT: magnitudes between the assembler's limit and the IEEE overflow threshold."""
+    """a finite double that does not fit the format (half, single)"""
     sign = -1.0 if rng.random() < 0.4 else 1.0
     ebits, fbits = FMT[fmt]
     bias = (1 << (ebits - 1)) - 1
+    if rng.random() < 0.6:
+        return sign * rng.choice(FLOAT_OUTSIDE[fmt]), fmt + '-overflow'
     return sign * math.ldexp(1.0 + rng.random(), rng.randrange(bias + 1, bias + 40)), fmt + '-overflow'
 
 
@@ -453,6 +475,17 @@ class Gen:
         self.st = State(tgt)
         self.big = False       # big statements (up to the documented 1 KiB of code per line) wanted
         self.force = None      # statement kind forced for the next statement (directed cases)
+        self.fixed = None      # ('ok'|'bad', value, class): float value forced for the next statement
+
+    def pf(self, fmt):
+        if self.fixed and self.fixed[0] == 'ok':
+            return self.fixed[1], self.fixed[2]
+        return pick_float(self.rng, fmt)
+
+    def pfo(self, fmt):
+        if self.fixed and self.fixed[0] == 'bad':
+            return self.fixed[1], self.fixed[2]
+        return pick_float_overflow(self.rng, fmt)
 
     def reps(self, normal):
         """pool of [n] repeat counts"""
@@ -545,9 +578,14 @@ class Gen:
         mnem = 'dc' + ('.' + attr if attr else '')
         it = Item('')
         mode = rng.choice(['val', 'val', 'val', 'str', 'res']) if typ == 'int' else rng.choice(['val', 'val', 'val', 'res'])
+        if self.fixed:
+            mode = 'val'
         if bad:
             mode = rng.choice(['val', 'val', 'val', 'mix'])
+            if self.fixed:
+                mode = 'val'
             if typ == 'double' or typ == 'ext' or attr == 'q':
+                # every double fits DC.D and DC.X, every 64-bit integer fits DC.Q: nothing to reject but a mix
                 mode = 'mix'
         nargs = rng.choice([1, 2, 3] if self.big else [1, 1, 2, 3, 4, 6])
         # MANUAL-SILENT: whether a reservation of words at an odd address is padded; such statements are
@@ -591,14 +629,10 @@ class Gen:
                     it.errcls = cls
                     it.expect = 'err'
                 else:
-                    x, cls = pick_float_overflow(rng, typ)
+                    x, cls = self.pfo(typ)
                     args.append(pre + fmt_float(x))
                     it.errcls = cls
-                    it.expect = 'err|alt'
-                    b = ieee_bytes(math.copysign(math.inf, x), typ, True)
-                    s0 = len(it.slots)
-                    it.slots += b * n
-                    it.spans.append((s0, len(it.slots), cls))
+                    it.expect = 'err'
                 continue
             s0 = len(it.slots)
             if typ == 'int':
@@ -615,7 +649,7 @@ class Gen:
                     args.append(pre + t)
                     it.slots += self.value_bytes(v, size, True) * n
             else:
-                x, cls = pick_float(rng, typ)
+                x, cls = self.pf(typ)
                 args.append(pre + fmt_float(x))
                 if typ == 'ext':
                     b = ext96_bytes_be(x)
@@ -786,23 +820,23 @@ class Gen:
             t, v, cls = self.int_arg(8)
             return t, [('v', [twos(v, 8)], cls)]
         if kind == 'dw':
-            if rng.random() < 0.3:
-                x, cls = pick_float(rng, 'half')       # "DW: 16-bit integer or half precision"
+            if rng.random() < 0.3 or self.fixed:
+                x, cls = self.pf('half')       # "DW: 16-bit integer or half precision"
                 return fmt_float(x), [('v', ieee_bytes(x, 'half', False), cls)]
             t, v, cls = self.int_arg(16)
             return t, [('v', self.value_bytes(v, 2, False), cls)]
         if kind == 'dd':
-            if rng.random() < 0.4:
-                x, cls = pick_float(rng, 'single')
+            if rng.random() < 0.4 or self.fixed:
+                x, cls = self.pf('single')
                 return fmt_float(x), [('v', ieee_bytes(x, 'single', False), cls)]
             t, v, cls = self.int_arg(32)
             return t, [('v', self.value_bytes(v, 4, False), cls)]
         if kind == 'dq':
             # MANUAL-SILENT: "DQ: double precision (64 bits)" - integer arguments are not described
-            x, cls = pick_float(rng, 'double')
+            x, cls = self.pf('double')
             return fmt_float(x), [('v', ieee_bytes(x, 'double', False), cls)]
         if kind == 'dt':
-            x, cls = pick_float(rng, 'ext')
+            x, cls = self.pf('ext')
             return fmt_float(x), [('v', ext80_bytes(x, False), cls)]
         raise AssertionError(kind)
 
@@ -888,7 +922,9 @@ class Gen:
             mnem = 'def' + kind[1]             # "DEFB/DEFW may be used instead of DB/DW in Z80-mode"
         it = Item('')
         if bad:
-            which = rng.choice(['range', 'range', 'range', 'mix', 'float'])
+            which = rng.choice(['range', 'range', 'mix', 'float', 'float'])
+            if self.fixed:
+                which = 'float'
             if kind in ('dq', 'dt'):
                 which = 'mix'
             if which == 'float' and kind not in ('dw', 'dd'):
@@ -911,17 +947,10 @@ class Gen:
                     continue
                 if which == 'float':
                     fmt = 'half' if kind == 'dw' else 'single'
-                    x, cls = pick_float_overflow(rng, fmt)
+                    x, cls = self.pfo(fmt)
                     t = fmt_float(x)
-                    # error or infinity are both acceptable; an alternative image is only offered for the
-                    # single-argument form to keep the comparison simple
-                    nargs_single = (nargs == 1)
                     it.errcls = cls
-                    it.expect = 'err|alt' if nargs_single and st.gran == 1 else 'err|any'
-                    if it.expect == 'err|alt':
-                        b = ieee_bytes(math.copysign(math.inf, x), fmt, st.bigendian)
-                        it.slots = b
-                        it.spans = [(0, len(b), cls)]
+                    it.expect = 'err'
                 else:
                     v, cls = pick_int_bad(rng, self.ELEM_BITS[kind])
                     t = fmt_int(rng, v, self.tgt.hexs)
@@ -929,13 +958,10 @@ class Gen:
                     it.expect = 'err'
                 if rng.random() < 0.3:
                     t = '%d dup (%s)' % (rng.choice([1, 2, 3]), t)
-                    if it.expect == 'err|alt':
-                        it.expect = 'err|any'
-                        it.slots, it.spans = [], []
                 parts.append(t)
             it.text = '%s\t%s' % (mnem, ','.join(parts))
             return self.finish(it, fam, kind)
-        reserve = rng.random() < 0.15
+        reserve = rng.random() < 0.15 and not self.fixed
         parts = []
         elems = []
         for _ in range(rng.choice([1, 1, 2, 3, 4])):
@@ -1119,12 +1145,12 @@ class Gen:
             else:
                 fmt = 'single' if kind == 'float' else 'double'
                 if i == badidx:
-                    x, cls = pick_float_overflow(rng, fmt)
+                    x, cls = self.pfo(fmt)
                     args.append(fmt_float(x))
                     it.errcls = cls
                     continue
                 # "The least significant byte is copied to the first allocated memory location"
-                x, cls = pick_float(rng, fmt)
+                x, cls = self.pf(fmt)
                 args.append(fmt_float(x))
                 it.slots += ieee_bytes(x, fmt, False)
                 it.spans.append((s0, len(it.slots), cls))
@@ -1133,7 +1159,7 @@ class Gen:
         it.text = '%s\t%s' % (kind, ','.join(args))
         it.expect = 'ok'
         if bad:
-            it.expect = 'err|any' if kind == 'float' else 'err'
+            it.expect = 'err'
             it.slots, it.spans = [], []
         return self.finish(it, 'TI', kind)
 
@@ -1557,9 +1583,55 @@ class Gen:
             items.append(it)
         return items
 
+    # float-typed statement kinds per family: (builder, forced kind, format)
+    FLOAT_KINDS = {
+        'M16': [('m16_dc', 'c', 'half'), ('m16_dc', 's', 'single'), ('m16_dc', 'd', 'double'), ('m16_dc', 'x', 'ext')],
+        'INTEL': [('intel_dx', 'dw', 'half'), ('intel_dx', 'dd', 'single'), ('intel_dx', 'dq', 'double'), ('intel_dx', 'dt', 'ext')],
+        'AVR': [('avr_dx', 'dw', 'half'), ('avr_dx', 'dd', 'single')],
+        'TI': [('ti_stmt', 'float', 'single'), ('ti_stmt', 'double', 'double')],
+    }
+    # Not modelled (no image to compare, no rejection to demand), each for a stated reason:
+    #  DC.P (680x0 packed decimal), EFLOAT/BFLOAT/TFLOAT (320C2x): the manual gives field widths but not the
+    #    normalisation/digit layout, and their exponent fields hold every double, so nothing is out of range;
+    #  SINGLE/EXTENDED (320C3x), SINGLE/DOUBLE (TMS99xxx, IBM/360 format): "processor-specific formats", the
+    #    manual states neither layout nor rounding;
+    #  DC.D/DQ/DOUBLE/DC.X/DT: every finite double fits, a value outside cannot be written (see FLOAT_OUTSIDE).
+
+    def limits_program(self, bigendian=False):
+        """directed program: every float-typed statement kind of the target with every value of FLOAT_INSIDE
+        (must be laid down exactly) and FLOAT_OUTSIDE (must be rejected), both signs, one value per statement"""
+        rng = self.rng
+        st = self.st
+        items = self.select_cpu(self.tgt, True)
+        if self.tgt.bigendian and st.bigendian != bigendian:
+            st.bigendian = bigendian
+            items.append(Item('bigendian\t%s' % ('on' if bigendian else 'off')))
+        for fam in self.tgt.fam:
+            for name, kind, fmt in self.FLOAT_KINDS.get(fam, []):
+                plan = [('ok', v, fmt + '-max') for v in FLOAT_INSIDE[fmt]]
+                plan += [('bad', v, fmt + '-overflow') for v in FLOAT_OUTSIDE.get(fmt, [])]
+                for what, v, cls in plan:
+                    for sign in (1.0, -1.0):
+                        for _ in range(20):
+                            self.force = kind
+                            self.fixed = (what, sign * v, cls)
+                            sa, sl = st.addr, st.left
+                            it = getattr(self, name)(what == 'bad')
+                            if it is not None and it.errcls != 'mixed-constant-and-placeholder':
+                                items.append(it)
+                                break
+                            st.addr, st.left = sa, sl
+        self.force = None
+        self.fixed = None
+        it = self.sentinel()
+        if it is not None:
+            items.append(it)
+        return items
+
     def sentinel(self):
         self.big = False
         self.force = None
+        self.fixed = None
         fam = self.tgt.fam[0]
         for _ in range(50):
             name = {'M16': 'm16_dc', 'M8': 'm8_byt', 'INTEL': 'intel_dx', 'MSP': 'msp_byte', 'TI': 'ti_stmt',
